@@ -413,40 +413,13 @@ def o_chunks(tier, seed):
 
 
 def run_o_chunk(_chunk, st):
-    """The same fixed inputs in this interpreter and in one started with
-    -O (assert statements compiled away): identical results."""
-    import json
-    import subprocess
-    import sys
+    """The same fixed inputs in this interpreter and in ones started with
+    -O (assert statements compiled away) and -bb (bytes/str comparisons
+    are errors): identical results."""
     from dxv import ocheck
-    here = ocheck.compute()
-    env = dict(os.environ, PYTHONPATH=VERIF + os.pathsep +
-               os.environ.get('PYTHONPATH', ''), PYTHONDONTWRITEBYTECODE='1')
-    p = subprocess.run([sys.executable, '-O', '-m', 'dxv.ocheck'], env=env,
-                       cwd=VERIF, stdout=subprocess.PIPE,
-                       stderr=subprocess.PIPE, timeout=600)
-
-    if p.returncode != 0:
-        raise sut.HarnessError('python -O -m dxv.ocheck failed:\n%s'
-                               % p.stderr.decode('utf-8', 'replace')[-2000:])
-
-    there = json.loads(p.stdout.decode('utf-8'))
-
-    if not there['optimised'] or not __debug__:
-        raise sut.HarnessError('the -O comparison needs one optimised and '
-                               'one ordinary interpreter')
-
-    diff = sorted(k for k in set(here) | set(there['results'])
-                  if here.get(k) != there['results'].get(k))
-
-    for k in diff[:1]:
-        st.violation('results-depend-on-assert-statements',
-                     '%d of %d results differ under python -O, e.g. %s: '
-                     '%s vs %s' % (len(diff), len(here), k, here.get(k),
-                                   there['results'].get(k)),
-                     {'key': k})
-
-    st.bulk(len(here), len(here), sample={'keys': sorted(here)[:3]})
+    n = ocheck.compare(st, ('records', 'to_bytes', 'stats'),
+                       sut.HarnessError)
+    st.bulk(n, n, sample={'results-compared': n})
 
 
 def run_o_case(case, st):
@@ -478,16 +451,17 @@ def checks():
             bound={'quick': '7 files x all paddings x all block sizes',
                    'thorough': '7 files x all paddings x all block sizes'}),
         EnumCheck(
-            'optimised-interpreter', o_chunks, run_o_chunk,
+            'interpreter-flags', o_chunks, run_o_chunk,
             run_case=run_o_case,
             rule='the 7 spec examples and 25 small corpus files read with '
                  'the default and four other block sizes and five paddings '
                  'of the first header, loaded into the object model, '
                  're-serialised and analysed for statistics, once in this '
-                 'interpreter and once in a child started with python -O: '
-                 'the digests of all results must be identical (nothing may '
-                 'hang on an assert statement being executed); every '
+                 'interpreter and once each in children started with '
+                 'python -O and python -bb: the digests of all results must '
+                 'be identical (nothing may hang on an assert statement '
+                 'being executed or on comparing bytes with str); every '
                  'comparison is non-trivial',
-            bound={'quick': '32 files x 12 results, two interpreters',
+            bound={'quick': '32 files x 12 results, three interpreters',
                    'thorough': 'same'}),
     ]
